@@ -229,6 +229,7 @@ class Lowering:
         self.enums = {}
         self.enum_order = []
         self.may_raise = set()   # mangled
+        self.opaque_auto = set()
         self.bodies = {}         # mangled -> (proto, text)
         self.callgraph = {}      # mangled -> set(mangled)
         self.report = {'functions': [], 'dropped': [], 'externals': [], 'raise_sites': 0,
@@ -420,7 +421,10 @@ class Lowering:
                 out += '%s%s {\n%s%s};\n' % (pad, target.get('tagUsed', 'struct'),
                                             self.record_body(target, ind + 1), pad)
             else:
-                out += '%s%s;\n' % (pad, self.declarator(ty(k), k['name']))
+                ft = ty(k).strip()
+                if ft.startswith('const ') and not ft.endswith('*') and not ft.endswith('&'):
+                    ft = ft[6:]          # a const member is initialised once by the constructor; C assigns it
+                out += '%s%s;\n' % (pad, self.declarator(ft, k['name']))
         if nfields == 0 and not bases:
             out += '%schar __empty;\n' % pad
         return out
@@ -536,7 +540,16 @@ class Lowering:
         ps = []
         if d['kind'] in ('CXXMethodDecl', 'CXXConversionDecl', 'CXXDestructorDecl') and d.get('storageClass') != 'static':
             cls = self.class_of(d)
-            ct = self.record_cname(cls)
+            try:
+                ct = self.record_cname(cls)
+            except Unsupported:
+                # the class cannot be laid out in C (e.g. templated bases); `self` becomes a pointer to an
+                # opaque struct -- any member access through it then fails to compile (=> UNDECIDED)
+                ct = self.sanitize(self.tu.qual[cls['id']])
+                self.records.pop(ct, None)
+                if ct in self.record_order:
+                    self.record_order.remove(ct)
+                self.opaque_auto.add(ct)
             const = 'const ' if re.search(r'\)\s*const', d['type']['qualType']) else ''
             ps.append('%s%s *self' % (const, ct))
             fs.this_type = ct
@@ -560,8 +573,12 @@ class Lowering:
         if pid and pid in self.tu.by_id:
             return self.tu.by_id[pid]
         p = self.tu.parent.get(dd['id'])
-        if p and p.get('kind') in ('CXXRecordDecl', 'ClassTemplateSpecializationDecl'):
-            return p
+        hops = 0
+        while p is not None and hops < 4:
+            if p.get('kind') in ('CXXRecordDecl', 'ClassTemplateSpecializationDecl'):
+                return p
+            p = self.tu.parent.get(p.get('id'))
+            hops += 1
         raise Unsupported('cannot find class of %s' % d.get('name'))
 
     def ret_ctype(self, d):
@@ -1016,7 +1033,8 @@ class Lowering:
 
     def is_global(self, decl):
         p = self.tu.parent.get(decl['id'])
-        return p is not None and p.get('kind') in ('TranslationUnitDecl', 'NamespaceDecl', 'LinkageSpecDecl')
+        return p is not None and p.get('kind') in ('TranslationUnitDecl', 'NamespaceDecl', 'LinkageSpecDecl',
+                                                    'CXXRecordDecl', 'ClassTemplateSpecializationDecl')
 
     def global_ref(self, decl, ctx):
         q = self.tu.qual[decl['id']]
@@ -1287,6 +1305,16 @@ class Lowering:
     def e_UnaryExprOrTypeTraitExpr(self, n, ctx):
         if n.get('name') == 'sizeof' and 'argType' in n:
             return 'sizeof(%s)' % self.ctype(n['argType'].get('desugaredQualType') or n['argType']['qualType'])
+        if n.get('name') == 'sizeof' and kids(n):
+            sub = kids(n)[0]
+            t = ty(sub)
+            if re.search(r'\[[^\]\d][^\]]*\]', t):
+                raise Unsupported('sizeof applied to a variable-length array (lowered to alloca)')
+            sctx = Ctx(ctx.fn)
+            e = self.expr(sub, sctx)
+            if sctx.pre:
+                raise Unsupported('sizeof operand with side effects')
+            return 'sizeof(%s)' % e
         raise Unsupported('sizeof/alignof form')
 
     # ---- construction
@@ -1314,12 +1342,15 @@ class Lowering:
         q = self.tu.qual[rec['id']]
         # trivial copy / move: value of the argument
         base = q.split('::')[-1]
-        if len(args) == 1 and re.fullmatch(r'void \((const )?%s ?&&?\)( noexcept)?' % re.escape(q), ctor_t):
+        if len(args) == 1 and re.fullmatch(r'void \((const )?%s ?&&?\)( noexcept(\(\w+\))?)?' % re.escape(q), ctor_t):
             ctor = self.find_ctor(rec, ctor_t)
             if ctor is None or ctor.get('isImplicit') or ctor.get('explicitlyDefaulted'):
                 a = args[0]
                 if self.has_modelled_member(rec) and not self.is_temporary(a) and '&&' not in ctor_t:
-                    raise Unsupported('copy of %s from an lvalue needs a deep-copy model (cfg.record_copy)' % q)
+                    cp = self.cfg.get('record_copy', {}).get(self.record_cname(rec))
+                    if cp is None:
+                        raise Unsupported('copy of %s from an lvalue needs a deep-copy model (cfg.record_copy)' % q)
+                    return '%s(%s)' % (cp, self.addr_of(a, ctx))
                 e = self.expr(a, ctx)
                 return e
         ctor = self.find_ctor(rec, ctor_t)
@@ -1343,19 +1374,25 @@ class Lowering:
         return a.get('kind') == 'MaterializeTemporaryExpr' or a.get('valueCategory') == 'prvalue' \
             or (a.get('kind') == 'DeclRefExpr' and a.get('valueCategory') == 'xvalue')
 
-    def has_modelled_member(self, rec):
+    def has_modelled_member(self, rec, depth=0):
         rd = self.cfg.get('record_default', {})
+        if depth > 6:
+            return False
+        members = []
         for b in rec.get('bases') or []:
-            bt = b['type'].get('desugaredQualType') or b['type']['qualType']
-            if self.ctype(bt) in rd:
-                return True
+            members.append(b['type'].get('desugaredQualType') or b['type']['qualType'])
         for k in kids(rec):
             if k.get('kind') == 'FieldDecl' and k.get('name'):
-                try:
-                    if self.ctype(ty(k)) in rd:
-                        return True
-                except Unsupported:
-                    pass
+                members.append(ty(k))
+        for t in members:
+            try:
+                if self.ctype(t) in rd:
+                    return True
+            except Unsupported:
+                pass
+            sub = self.find_record(self.strip_cvref(t))
+            if sub is not None and self.has_modelled_member(sub, depth + 1):
+                return True
         return False
 
     def default_value(self, rec):
@@ -1388,13 +1425,21 @@ class Lowering:
 
     def call_args(self, decl, args, ctx):
         params = [p for p in kids(decl) if p.get('kind') == 'ParmVarDecl']
-        return self.call_args_for_types(args, [ty(p) for p in params], ctx)
+        return self.call_args_for_types(args, [ty(p) for p in params], ctx, params)
 
-    def call_args_for_types(self, args, ptypes, ctx):
+    def call_args_for_types(self, args, ptypes, ctx, params=None):
         out = []
         for i, a in enumerate(args):
             if a.get('kind') == 'CXXDefaultArgExpr':
-                raise Unsupported('default argument')
+                # clang does not dump the expression at the call; take it from the parameter declaration
+                dflt = None
+                if params is not None and i < len(params):
+                    pk = [k for k in kids(params[i]) if k.get('kind')]
+                    if pk:
+                        dflt = pk[-1]
+                if dflt is None:
+                    raise Unsupported('default argument whose expression is not available')
+                a = dflt
             pt = ptypes[i] if i < len(ptypes) else None
             if pt is not None and self.is_ref(pt):
                 out.append(self.addr_of(a, ctx))
@@ -1590,7 +1635,7 @@ class Lowering:
         return '\n'.join(out) + '\n'
 
     def emit_types(self):
-        out = []
+        out = ['typedef struct %s %s;' % (c, c) for c in sorted(self.opaque_auto)]
         for c in self.enum_order:
             out.append(self.enums[c])
         for c in self.record_order:
